@@ -16,7 +16,9 @@ import (
 	"fmt"
 	"math/big"
 	"os"
+	"runtime"
 	"strings"
+	"sync"
 
 	. "verif/harness/kit"
 
@@ -676,6 +678,84 @@ func run(args []string) error {
 			"original": hx(encoder.Serialize(sb)), "mutated": hx(encoder.Serialize(t)), "pubkey": hx(pk[:]), "check": "SignedBlock.VerifySignature",
 		})
 		hist.Add("f12:block:neg-s+recid^1:" + yn(err == nil))
+	}
+
+	// ---- concurrency: the acceptance checks answer the same from many goroutines at once as sequentially
+	//      (run-time check on the implementation; shared scratch state is invisible to the model)
+	{
+		if runtime.GOMAXPROCS(0) < 4 {
+			runtime.GOMAXPROCS(4)
+		}
+		type job struct {
+			addr cipher.Address
+			pk   cipher.PubKey
+			sig  cipher.Sig
+			h    cipher.SHA256
+		}
+		var jobs []job
+		for i := 0; i < 40; i++ {
+			sk, pk := g.key()
+			var h cipher.SHA256
+			copy(h[:], g.r.Bytes(32))
+			sig := g.sign(h, sk)
+			switch i % 4 {
+			case 1:
+				sig[64] ^= 1
+			case 2:
+				copy(sig[32:64], b32(new(big.Int).Sub(bigN, sOf(sig))))
+				sig[64] ^= 1
+			}
+			jobs = append(jobs, job{cipher.AddressFromPubKey(pk), pk, sig, h})
+		}
+		eval := func(j job) (out string) {
+			defer func() {
+				if r := recover(); r != nil {
+					out = "panic"
+				}
+			}()
+			return errName(cipher.VerifyAddressSignedHash(j.addr, j.sig, j.h)) + "/" + errName(cipher.VerifyPubKeySignedHash(j.pk, j.sig, j.h))
+		}
+		seq := make([]string, len(jobs))
+		for i, j := range jobs {
+			seq[i] = eval(j)
+		}
+		workers, rounds, bad := 12, 5, 0
+		for round := 0; round < rounds && bad < 3; round++ {
+			res := make([][]string, workers)
+			var wg sync.WaitGroup
+			for w := 0; w < workers; w++ {
+				wg.Add(1)
+				go func(w int) {
+					defer wg.Done()
+					out := make([]string, len(jobs))
+					for i := range jobs {
+						ji := (i + w*5) % len(jobs)
+						out[ji] = eval(jobs[ji])
+					}
+					res[w] = out
+				}(w)
+			}
+			wg.Wait()
+			for w := 0; w < workers && bad < 3; w++ {
+				for i := range jobs {
+					if res[w][i] != seq[i] {
+						bad++
+						emit("conc", "nop", []string{"-"}, "-", map[string]interface{}{"role": "signature", "mutation": "none", "accepted": "no", "same": "yes", "in_window": "no",
+							"concurrent_equal": "no", "call": "VerifyAddressSignedHash/VerifyPubKeySignedHash sig=" + hx(jobs[i].sig[:]) + " hash=" + hx(jobs[i].h[:]),
+							"sequential": seq[i], "concurrent": res[w][i]})
+						break
+					}
+				}
+			}
+		}
+		emit("conc", "nop", []string{"-"}, "-", map[string]interface{}{"role": "signature", "mutation": "none", "accepted": "no", "same": "yes", "in_window": "no",
+			"concurrent_equal": yn(bad == 0), "calls": len(jobs), "goroutines": workers, "rounds": rounds})
+		hist.Add(fmt.Sprintf("concurrent:%d calls x %d goroutines x %d rounds:mismatches=%d", len(jobs), workers, rounds, bad))
+	}
+
+	// ---- block role on real follower / arbitrating nodes (node.go)
+	if err := nodeRole(g.r, emit, hist); err != nil {
+		return err
 	}
 
 	if f.Out == "" {
